@@ -207,6 +207,25 @@ func judgeFlatten(before, after T, positions map[string]bool) string {
 			if nilsA != nilsB {
 				return fmt.Sprintf("%s: %d nil entries before, %d after", name, nilsB, nilsA)
 			}
+			// embedded objects (and links) without an id stay as they were: every one of them, in their order
+			var keepB, keepA []interface{}
+			for _, o := range bl {
+				if o != nil && treeID(o) == "" && !isCollectionTree(o) {
+					if m, ok := o.(T); !ok || m["iri"] == nil {
+						keepB = append(keepB, o)
+					}
+				}
+			}
+			for _, e := range al {
+				if e != nil && treeID(e) == "" && !isCollectionTree(e) {
+					if m, ok := e.(T); !ok || m["iri"] == nil {
+						keepA = append(keepA, e)
+					}
+				}
+			}
+			if !treeEqual(keepB, keepA) {
+				return fmt.Sprintf("%s: the entries without an id were %s and are %s", name, mustJSONs(keepB), mustJSONs(keepA))
+			}
 		}
 	}
 	for name := range af {
@@ -296,7 +315,7 @@ func c16Spice(r *RNG, tr T) {
 		if len(l) == 0 {
 			continue
 		}
-		switch r.Intn(7) {
+		switch r.Intn(8) {
 		case 0:
 			l = append(l, l[r.Intn(len(l))])
 		case 1:
@@ -305,6 +324,16 @@ func c16Spice(r *RNG, tr T) {
 			}
 		case 2:
 			l = append([]interface{}{nil}, l...)
+		case 6:
+			// embedded objects and mentions that have no id of their own: each of them stays
+			for k := 1 + r.Intn(2); k >= 0; k-- {
+				var m interface{} = T{"t": "Object", "ptr": true, "f": T{"Type": T{"s": "Note"}, "Name": T{"nlv": []interface{}{[]interface{}{"-", fmt.Sprintf("no id %d", k)}}}}}
+				if r.Chance(30) {
+					m = T{"t": "Link", "ptr": true, "f": T{"Type": T{"s": "Mention"}, "Href": T{"s": fmt.Sprintf("https://example.com/href/%d", k)}}}
+				}
+				pos := r.Intn(len(l) + 1)
+				l = append(l[:pos:pos], append([]interface{}{m}, l[pos:]...)...)
+			}
 		case 5:
 			// addressees of the same document: ids that are only a fragment
 			for _, fr := range []string{"#alice", "#bob", "#alice"}[:2+r.Intn(2)] {
